@@ -383,3 +383,60 @@ M2('c05-status-fstrings-range-check-dropped', 'C05', 'R7', [
         raise ValueError('{!r} is not a valid status code'.format(status))
 """, 'new': ""},
 ])
+
+# ------------------------------------------------------------------ auto-mutation sweep (sa-am*)
+RSP = 'falcon/response.py'
+ARSP = 'falcon/asgi/response.py'
+# R9 (sa-am00459): the 'body' of a body event is never None
+M('c05-asgi-read-chunk-none-not-normalised', 'C05', 'R9', G, "                                    'body': data or b'',\n", "                                    'body': data,\n")
+M('c05-asgi-read-chunk-normalised-to-none', 'C05', 'R9', G, "                                    'body': data or b'',\n", "                                    'body': data or None,\n")
+M('c05-asgi-iter-chunk-none-not-excluded', 'C05', 'R9', G,
+  "                        if data is None:\n                            break\n\n", "")
+# R10a (sa-am00270): the disconnect watcher is cancelled before it is awaited
+_CANCEL = "            watcher.cancel()\n            try:\n                await watcher\n"
+M('c05-asgi-sse-watcher-not-cancelled', 'C05', 'R10', G, _CANCEL, "            try:\n                await watcher\n")
+M('c05-asgi-sse-watcher-cancelled-after-await', 'C05', 'R10', G, _CANCEL, "            try:\n                await watcher\n                watcher.cancel()\n")
+M('c05-asgi-sse-watcher-cancelled-only-when-done', 'C05', 'R10', G, _CANCEL,
+  "            if watcher.done():\n                watcher.cancel()\n            try:\n                await watcher\n")
+# R10b (sa-am00325): the emitter is validated before the response start
+_REJECT = """            if isasyncgenfunction(sse_emitter):
+                raise TypeError(
+                    'Response.sse must be an async iterable. This can be obtained by '
+                    'simply executing the async generator function and then setting '
+                    'the result to Response.sse, e.g.: '
+                    'resp.sse = some_asyncgen_function()'
+                )
+"""
+M('c05-asgi-sse-emitter-check-does-nothing', 'C05', 'R10', G, _REJECT, "            if isasyncgenfunction(sse_emitter):\n                pass\n")
+M('c05-asgi-sse-emitter-check-removed', 'C05', 'R10', G, _REJECT, "")
+M2('c05-asgi-sse-emitter-check-after-start', 'C05', 'R10', [
+    {'file': G, 'old': _REJECT, 'new': ""},
+    {'file': G, 'old': "            sse_handler, _, _ = self.resp_options.media_handlers._resolve(\n", 'new': _REJECT + "            sse_handler, _, _ = self.resp_options.media_handlers._resolve(\n"}])
+# R11 (sa-am00952 / sa-am00956): optional fast-path serializer; render cache filled before it is read
+_ADISPATCH = """                    if serialize_sync:
+                        self._media_rendered = serialize_sync(self._media)
+                    else:
+                        self._media_rendered = await handler.serialize_async(
+                            self._media, self.content_type
+                        )
+"""
+M('c05-asgi-render-body-inverted-fast-path', 'C05', 'R11', ARSP, _ADISPATCH, _ADISPATCH.replace("if serialize_sync:", "if not (serialize_sync):"))
+M('c05-asgi-render-body-fast-path-unguarded', 'C05', 'R11', ARSP, _ADISPATCH, "                    self._media_rendered = serialize_sync(self._media)\n")
+M('c05-asgi-render-body-slow-path-stores-nothing', 'C05', 'R11', ARSP, _ADISPATCH,
+  "                    if serialize_sync:\n                        self._media_rendered = serialize_sync(self._media)\n                    else:\n                        pass\n")
+M('c05-asgi-inlined-render-inverted-fast-path', 'C05', 'R11', G,
+  "                            if serialize_sync:\n                                resp._media_rendered = serialize_sync(resp._media)\n",
+  "                            if not serialize_sync:\n                                resp._media_rendered = serialize_sync(resp._media)\n")
+M('c05-asgi-inlined-render-fast-path-stores-nothing', 'C05', 'R11', G,
+  "                                resp._media_rendered = serialize_sync(resp._media)\n", "                                serialize_sync(resp._media)\n")
+M('c05-wsgi-render-body-rendition-not-cached', 'C05', 'R11', RSP,
+  "                    self._media_rendered = handler.serialize(\n                        self._media, self.content_type\n                    )\n",
+  "                    data = handler.serialize(\n                        self._media, self.content_type\n                    )\n")
+# R12 (sa-am02138 / sa-am02143): raw header setters stringify what the caller passed
+M2('c05-set-header-value-not-stringified', 'C05', 'R12', [{'file': RSP, 'old': "        # to US-ASCII.\n        value = str(value)\n", 'new': "        # to US-ASCII.\n", 'count': 2, 'occurrence': 0}], also=('C15',))
+M2('c05-append-header-value-not-stringified', 'C05', 'R12', [{'file': RSP, 'old': "        # to US-ASCII.\n        value = str(value)\n", 'new': "        # to US-ASCII.\n", 'count': 2, 'occurrence': 1}], also=('C15',))
+M('c05-set-headers-value-not-stringified', 'C05', 'R12', RSP, "            value = str(value)\n", "", also=('C15',))
+M2('c05-set-header-stringified-after-store', 'C05', 'R12', [
+    {'file': RSP, 'old': "        # to US-ASCII.\n        value = str(value)\n", 'new': "        # to US-ASCII.\n", 'count': 2, 'occurrence': 0},
+    {'file': RSP, 'old': "        self._headers[name] = value\n\n    def delete_header", 'new': "        self._headers[name] = value\n        value = str(value)\n\n    def delete_header"}],
+   also=('C15',))
